@@ -318,17 +318,31 @@ def lift_closure(sig, body, lift, where, prov):
     caps = sorted((used & locs) - pnames)
     if caps != sorted(lift["captures"]):
         raise LostAnchor("%s: closure captures %s, unit declares %s" % (where, caps, sorted(lift["captures"])))
-    # declared deref sites inside the lifted body (assignments to captured variables)
-    for d in lift.get("deref_sites", []):
-        n = cbody.count(d["find"])
-        if n != d.get("count", 1):
-            raise LostAnchor("%s: deref site `%s` found %d times" % (where, d["find"], n))
-        cbody = cbody.replace(d["find"], d["replace"])
+    # captured locals become `&mut T` parameters: every occurrence of such a variable is rewritten to the place `(*v)`
+    # (type-preserving, no per-site declaration); field names `.v` / `v:` are not occurrences of the variable
+    derefs = set(lift.get("deref", []))
+    if derefs:
+        ctoks = code_tokens(cbody)
+        out, pos, n_sites = [], 0, 0
+        for i, t in enumerate(ctoks):
+            if t[0] == "id" and t[1] in derefs:
+                prev = ctoks[i - 1][1] if i > 0 else ""
+                nxt = ctoks[i + 1][1] if i + 1 < len(ctoks) else ""
+                nxt2 = ctoks[i + 2][1] if i + 2 < len(ctoks) else ""
+                if prev == "." or (nxt == ":" and nxt2 != ":"):
+                    continue
+                out.append(cbody[pos:t[2]])
+                out.append("(*%s)" % t[1])
+                pos = t[3]
+                n_sites += 1
+        out.append(cbody[pos:])
+        cbody = "".join(out)
+        prov.append({"cls": "L", "what": "captured locals %s rewritten to the place `(*v)` at %d occurrences" % (sorted(derefs), n_sites)})
     lifted_sig = "fn %s%s(%s, %s)" % (lift["name"], lift.get("generics", ""), lift["param"],
                                       ", ".join("%s: %s" % (c, lift["capture_types"][c]) for c in lift["captures"]))
     new_body = body[:a] + lift["loop"].rstrip() + "\n" + body[end:]
     prov.append({"cls": "L", "what": "closure handed to `%s` lifted to fn %s; captures %s; call replaced by a loop over the walker contract"
-                 % (lift["call"].strip(), lift["name"], caps), "deref_sites": lift.get("deref_sites", [])})
+                 % (lift["call"].strip(), lift["name"], caps)})
     return new_body, lifted_sig, cbody
 
 
